@@ -17,7 +17,7 @@ Definition nsd_invb (ws : N) (sanitized : bool) (p : NewStreamData) : bool :=
   (lenN (bytes_so_far p) =? 5) && forallb is_byte (bytes_so_far p) && (num_bytes_read p <=? 5) &&
   match num_bytes_written p with
   | None => true
-  | Some k => (k <? num_bytes_read p) && negb (ws =? 0) && sanitized
+  | Some k => (k <? num_bytes_read p) && negb (ws =? 0)
   end.
 
 Definition invb (s : BroCatli) : bool :=
